@@ -469,6 +469,9 @@ pub fn one_run<U: CircuitUni>(ctx: &Ctx, prop: &str, idx: u64, out: &mut RunOut)
     }
     let faults = enumerate::<U>(&h, &mut rng, ctx.tier);
     for f in faults {
+        if prop == "C11" && f.kind == "slot_reassign" {
+            continue; // a bus-level fault over several tables: C04's business, not the row-level iff
+        }
         let Some(forged) = forge::<U>(&h, &f) else {
             out.count(&format!("not_fired_{}", f.kind));
             continue;
@@ -502,7 +505,7 @@ pub fn one_run<U: CircuitUni>(ctx: &Ctx, prop: &str, idx: u64, out: &mut RunOut)
             match gt {
                 Some(why) => out.violate(
                     format!("{}:{class}", f.kind),
-                    format!("{} on {} table row {} col {} ({class}) is ACCEPTED by the verifier although the committed values are invalid: {why}", f.kind, table_name(f.table), f.row, f.col),
+                    format!("{} on {} ({class}) is ACCEPTED by the verifier although the committed values are invalid: {why}", f.kind, if f.kind == "slot_reassign" { format!("witness slot {}", f.row) } else { format!("{} table row {} col {}", table_name(f.table), f.row, f.col) }),
                     json!({"universe": U::NAME, "program": p, "cfg": cfg.to_json(), "hash_seed": hs, "fault": f}),
                 ),
                 None => out.count("forged_accepted_trace_still_valid"),
@@ -616,30 +619,14 @@ pub fn main(ctx: &Ctx) -> i32 {
                 return 2;
             }
         };
-        return match body["detail"]["universe"].as_str().unwrap_or("") {
-            "U-BB4" => replay::<crate::uni::Bb4>(ctx, &body),
-            "U-BB5" => replay::<crate::uni::Bb5>(ctx, &body),
-            "U-KB5Q" => replay::<crate::uni::Kb5q>(ctx, &body),
-            "U-KB8" => replay::<crate::uni::Kb8>(ctx, &body),
-            "U-KB1" => replay::<crate::uni::Kb1>(ctx, &body),
-            "U-GL2" => replay::<crate::uni::Gl2>(ctx, &body),
-            _ => replay::<crate::uni::Kb4>(ctx, &body),
-        };
+        return crate::with_uni!(body["detail"]["universe"].as_str().unwrap_or(""), U, replay::<U>(ctx, &body));
     }
     let runs: u64 = if prop == "C11" { ctx.tier.pick(3000, 60000) } else { ctx.tier.pick(64, 800) };
     let res = crate::core::pool::run_jobs(runs, |idx| {
         let mut out = RunOut::default();
-        // degree-4 universes carry most runs; the other degrees / reductions of the ALU table
-        // (base field, binomial 2 / 5 / 8, quintic trinomial) share the rest
-        match idx % 12 {
-            0 | 2 | 4 | 10 => one_run::<crate::uni::Kb4>(ctx, &prop, idx, &mut out),
-            1 | 3 | 11 => one_run::<crate::uni::Bb4>(ctx, &prop, idx, &mut out),
-            5 => one_run::<crate::uni::Bb5>(ctx, &prop, idx, &mut out),
-            6 => one_run::<crate::uni::Kb5q>(ctx, &prop, idx, &mut out),
-            7 => one_run::<crate::uni::Kb8>(ctx, &prop, idx, &mut out),
-            8 => one_run::<crate::uni::Kb1>(ctx, &prop, idx, &mut out),
-            _ => one_run::<crate::uni::Gl2>(ctx, &prop, idx, &mut out),
-        }
+        // degree-4 universes carry most runs (one in twelve with the hiding PCS); the other degrees /
+        // reductions of the ALU table (base field, binomial 2 / 5 / 8, quintic trinomial) share the rest
+        crate::with_uni!(crate::uni::uni_of(idx), U, one_run::<U>(ctx, &prop, idx, &mut out));
         let mut d = crate::core::prng::Digest::new();
         d.u64(out.evals);
         for (k, v) in &out.counters {
